@@ -163,6 +163,96 @@ def gen_spec(rng, depth, kinds=None, leaf_kinds=None, allow_bag=True):
     raise ValueError(k)
 
 
+def scalar_weight_safe(spec):
+    """Known finding C03-scalar-weight-count-first: under a scalar (or default) weight the batch length is only known once
+    the first quantity has been evaluated; a Count visited before that gets the weight once instead of once per row, and a
+    collection none of whose members evaluates a quantity cannot compute its own entries.  This simulates the visit order
+    of fill.numpy on the tree and says whether that region is avoided, i.e. scalar weights are safe to use."""
+    state = {"known": False, "safe": True}
+
+    def visit(s, scalar):
+        k = s["k"]
+        if k == "Count":
+            if scalar and not state["known"]:
+                state["safe"] = False
+            return
+        if k in ("Label", "UntypedLabel", "Index", "Branch"):
+            members = list(s["pairs"].values()) if "pairs" in s else list(s["values"])
+            if s.get("order") == "rev":
+                members.reverse()
+            for m in members:
+                visit(m, scalar)
+            if scalar and not state["known"]:
+                state["safe"] = False
+            return
+        # every other primitive evaluates its own quantity first; what is below a binning container, a Select or a
+        # Fraction receives a weight array
+        state["known"] = True
+        for key in ("value", "underflow", "overflow", "nanflow", "cut"):
+            if key in s:
+                visit(s[key], False)
+
+    visit(spec, True)
+    return state["safe"]
+
+
+def gen_count_sibling_spec(rng):
+    """A collection in which plain Counts follow a member that evaluates a quantity: under a scalar weight these Counts
+    learn the batch length from their sibling (the safe side of known finding C03-scalar-weight-count-first)."""
+    first = gen_spec(rng, rng.randint(0, 1), kinds=[k for k in ALL_KINDS if k not in ("Count", "Label", "UntypedLabel", "Index", "Branch", "Bag")])
+    members = [first] + [{"k": "Count"} for _ in range(rng.randint(1, 2))]
+    if rng.random() < 0.5:
+        members.insert(1, gen_spec(rng, 0, kinds=["Average", "Minimize", "Maximize", "Deviate"]))
+    if rng.random() < 0.5:
+        return {"k": "Branch", "values": members}
+    return {"k": "UntypedLabel", "pairs": {"u%d" % i: m for i, m in enumerate(members)}}
+
+
+BINNING = ["Bin", "SparselyBin", "CentrallyBin", "IrregularlyBin", "Categorize", "Stack", "Select", "Fraction"]
+
+
+def gen_nested_binning_spec(rng, depth=2):
+    """binning containers nested in binning containers over a (mostly non-Count) leaf: the trees the convenience classes
+    specialise differently depending on when they are built (fresh, copy, sum, product, reload)"""
+    return gen_spec(rng, depth, kinds=BINNING + ["Sum", "Average", "Deviate", "Minimize", "Maximize", "Bag", "Count"])
+
+
+def gen_name_matrix_spec(rng):
+    """One container whose own quantity, bin content and every flow are chosen independently as named / unnamed,
+    Count / non-Count: the combinations in which a name must (or must not) be inherited on reload."""
+    def leaf(allow_count=True):
+        k = rng.choice((["Count"] if allow_count else []) + ["Sum", "Average", "Deviate", "Minimize", "Maximize", "Sum", "Average"])
+        if k == "Count":
+            return {"k": "Count"}
+        return {"k": k, "q": [rng.choice(NUM_COLS), rng.choice([None, None, "x", "y", "w8"])]}
+
+    def inner():
+        # the bin content: a leaf, or a collection of leaves (whose members keep their own names)
+        r = rng.random()
+        if r < 0.6:
+            return leaf()
+        if r < 0.8:
+            return {"k": "Branch", "values": [leaf(False) for _ in range(rng.randint(1, 3))]}
+        first = leaf(False)
+        return {"k": "Label", "pairs": {"m0": first, "m1": {"k": first["k"], "q": [rng.choice(NUM_COLS), rng.choice([None, "q"])]}}}
+
+    k = rng.choice(["Bin", "SparselyBin", "CentrallyBin", "IrregularlyBin", "Stack", "Fraction", "Select", "Categorize"])
+    q = [rng.choice(NUM_COLS), rng.choice([None, "x", "q"])]
+    if k == "Bin":
+        return {"k": k, "q": q, "n": 3, "low": -1.0, "high": 2.0, "value": inner(), "underflow": leaf(), "overflow": leaf(), "nanflow": leaf()}
+    if k == "SparselyBin":
+        return {"k": k, "q": q, "width": 1, "origin": 0.0, "value": inner(), "nanflow": leaf()}
+    if k == "CentrallyBin":
+        return {"k": k, "q": q, "centers": [-1.0, 0.5, 2.0], "value": inner(), "nanflow": leaf()}
+    if k in ("IrregularlyBin", "Stack"):
+        return {"k": k, "q": q, "edges": [-1.0, 1.0], "value": inner(), "nanflow": leaf()}
+    if k == "Fraction":
+        return {"k": k, "q": [BOOL_COL, q[1]], "value": inner()}
+    if k == "Select":
+        return {"k": k, "q": [BOOL_COL, q[1]], "cut": inner()}
+    return {"k": k, "q": [STR_COL, q[1]], "value": inner()}
+
+
 # module-level `def` quantities (a def has an implicit name: the function name)
 def col0(d):
     return _cell(d, 0)
@@ -382,7 +472,7 @@ def _depth(path):
     return sum(1 for p in path if p in ("value", "underflow", "overflow", "nanflow", "cut", "pairs", "values"))
 
 
-def perturb_spec(rng, spec, allow_type_swap=True):
+def perturb_spec(rng, spec, allow_type_swap=True, allow_dupcenter=False):
     """A copy of `spec` that differs in exactly one structural parameter or one child type at a
     random position.  Returns (spec2, description, depth of the changed node) or None."""
     import copy
@@ -395,12 +485,15 @@ def perturb_spec(rng, spec, allow_type_swap=True):
             k0 = _get(s2, path)["k"]
             per = {"Bin": ["n", "low", "high"], "SparselyBin": ["width", "origin"], "CentrallyBin": ["center", "addcenter", "dupcenter"],
                    "IrregularlyBin": ["edge", "addedge", "dropedge"], "Stack": ["edge", "addedge", "dropedge"],
-                   "Bag": ["range"], "Label": ["renamekey", "addmember"], "UntypedLabel": ["renamekey", "addmember"],
-                   "Index": ["addmember"], "Branch": ["addmember"]}.get(k0, [])
+                   "Bag": ["range"], "Label": ["renamekey", "addmember", "kindswap"], "UntypedLabel": ["renamekey", "addmember", "kindswap"],
+                   "Index": ["addmember", "kindswap"], "Branch": ["addmember", "kindswap"]}.get(k0, [])
             for c0 in per:
+                if c0 == "dupcenter" and not allow_dupcenter:
+                    continue   # a repeated centre is only meaningful for a container that is never filled (C10)
                 cands += [(path, c0)] * 4
             if allow_type_swap:
                 cands.append((path, "type"))
+                cands.append((path, "wrapselect"))
         if not cands:
             return None
         path, c = rng.choice(cands)
@@ -452,6 +545,16 @@ def perturb_spec(rng, spec, allow_type_swap=True):
                 node["pairs"]["zz"] = copy.deepcopy(first)
             else:
                 node["values"].append(copy.deepcopy(node["values"][0]))
+        elif c == "wrapselect":
+            # the same aggregator behind a Select (which forwards attribute access to its cut): a different primitive
+            wrapped = {"k": "Select", "q": [BOOL_COL, None], "cut": copy.deepcopy(node)}
+            if not path:
+                s2 = wrapped
+            else:
+                _get(s2, path[:-1])[path[-1]] = wrapped
+        elif c == "kindswap":
+            # the same members in the sibling collection type (Label <-> UntypedLabel, Index <-> Branch)
+            node["k"] = {"Label": "UntypedLabel", "UntypedLabel": "Label", "Index": "Branch", "Branch": "Index"}[k]
         elif c == "type":
             # replace the node by an aggregator of another primitive type
             repl = rng.choice([{"k": "Count"}, {"k": "Sum", "q": [0, None]}, {"k": "Minimize", "q": [1, None]},
@@ -468,5 +571,7 @@ def perturb_spec(rng, spec, allow_type_swap=True):
             build(s2)
         except Exception:  # noqa: BLE001
             continue  # e.g. a Label whose members no longer share one type
-        return s2, desc, _depth(path)
+        # a Select wrapped in a Select differs from the original one level further down (Select vs Select at this level)
+        extra = 1 if (c == "wrapselect" and k == "Select") else 0
+        return s2, desc, _depth(path) + extra
     return None
